@@ -14,13 +14,18 @@ def model_block(r, name, serde):
     if serde:
         ders = r.choice([["Serialize"], ["Serialize", "Deserialize"], ["Deserialize", "Serialize"], ["Debug", "Serialize"], ["Debug", "Clone", "Deserialize"], ["Serialize", "Debug"]])
     elif r.random() < 0.4:
-        ders = r.sample(["Debug", "Clone", "Eq"], r.randint(1, 2))
+        ders = r.sample(["Debug", "Clone", "Eq", "Hash", "Ord"], r.randint(1, 4))
     lines = []
     if len(ders) >= 2 and r.random() < 0.4:
         # stacked decorators: the serde derive may sit in any of them
         k = r.randint(1, len(ders) - 1)
-        lines.append("@derive(%s)" % ", ".join(ders[:k]))
-        lines.append("@derive(%s)" % ", ".join(ders[k:]))
+        first, second = ders[:k], ders[k:]
+        if r.random() < 0.5:
+            # the same derive named twice across the decorators (whatever the compiler does with it, it must do it the same way every time)
+            second = second + [r.choice(first)]
+            r.shuffle(second)
+        lines.append("@derive(%s)" % ", ".join(first))
+        lines.append("@derive(%s)" % ", ".join(second))
     elif ders:
         lines.append("@derive(%s)" % ", ".join(ders))
     lines.append("%s %s:" % (r.choice(["model", "model", "class"]), name))
@@ -203,3 +208,30 @@ def gen_illtyped(r):
                 "\n\ndef main() -> None:\n    b = Big()\n    println(%s)\n" % " + ".join("%s_missing" % m for m in ns))
     files["bad.incn"] = text
     return {"name": "bad", "files": files, "entry": "bad.incn", "features": {"illtyped.multi_diag", "illtyped." + fam}, "expect_crates": set(), "unknown_crate": None}
+
+
+def gen_same_name_project(r):
+    """Several dependency modules export the same public names with different signatures; the main module imports from all of them
+    and uses the shared names. Whatever the compiler decides (first wins, last wins, error), it must decide it the same way every time."""
+    mods = r.sample(["metric", "imperial", "alpha_mod", "zeta_mod", "b2", "util"], r.randint(2, 4))
+    shared = r.sample(["scale", "label", "make", "size"], r.randint(1, 2))
+    tys = ["int", "float", "str", "bool"]
+    files = {}
+    imports = []
+    for i, m in enumerate(mods):
+        t = tys[i % len(tys)]
+        lines = []
+        for sname in shared:
+            lines += ["pub def %s(x: %s) -> %s:" % (sname, t, t), "    return x", "", ""]
+        lines += ["pub def only_%s() -> int:" % m, "    return %d" % i, ""]
+        if r.random() < 0.5:
+            lines = ["pub const LIMIT: %s = %s" % (t, {"int": "1", "float": "1.5", "str": '"s"', "bool": "true"}[t]), "", ""] + lines
+        files[m + ".incn"] = "\n".join(lines)
+        names = ["only_%s" % m] + (shared if i == 0 or r.random() < 0.4 else [])
+        r.shuffle(names)
+        imports.append("from %s import %s" % (m, ", ".join(names)))
+    r.shuffle(imports)
+    body = ["    n: int = %s(4)" % shared[0]] + ["    println(only_%s())" % m for m in mods] + ["    println(n)"]
+    files["main.incn"] = "\n".join(imports) + "\n\n\ndef main() -> None:\n" + "\n".join(body) + "\n"
+    return {"name": "main", "files": files, "entry": "main.incn", "features": {"multi_file", "multi.same_name_exports", "multi.modules_%d" % len(mods)},
+            "expect_crates": set(), "unknown_crate": None}
